@@ -590,6 +590,26 @@ namespace _ST_PRIVATE
         return conversion_error_t::success;
     }
 
+    ST_NODISCARD
+    inline conversion_error_t utf32_convert_from_utf32(char32_t *dest,
+                    const char32_t *utf32, size_t size,
+                    ST::utf_validation_t validation)
+    {
+        const char32_t *sp = utf32;
+        const char32_t *ep = sp + size;
+        while (sp < ep) {
+            char32_t bigch = *sp++;
+            if (bigch > 0x10FFFF && validation != ST::assume_valid) {
+                if (validation == ST::check_validity)
+                    return conversion_error_t::out_of_range;
+                bigch = badchar_substitute;
+            }
+            *dest++ = bigch;
+        }
+
+        return conversion_error_t::success;
+    }
+
     inline void utf16_convert_from_latin_1(char16_t *dest, const char *astr, size_t size)
     {
         const char *sp = astr;
